@@ -11,7 +11,9 @@
  *  SD-2  a Connect command still in the queue when the queue is closed carries an id the application already holds (connect() returned it):
  *        it gets its close notification exactly once                                                            "never none ... stopped in an orderly way"
  *  SD-E  the queue is closed and empty, the engine's fds are closed, every mutex released, pending listener promises are failed */
+#ifndef SD_WITNESS
 static size_t count_open(const TcpEngine *e) { size_t k = 0; for (size_t i = 0; i < IORA_NS; i++) if (i < e->_sessions.n && !e->_sessions.v[i]->closed) k++; return k; }
+
 
 /* expectations computed from the pre-state + the clauses (shared by the bounded proof and the SEARCH harness) */
 typedef struct { bool cb, wsid_open, wsid_is_queued_connect, wfd_open; size_t open0, ssl_open, nc; uint64_t closed0; } sd_expect;
@@ -103,6 +105,67 @@ void h_shutdownDrain(void)
   sd_post(self, &x, P);
 }
 
+#endif
+
+#ifdef SD_WITNESS
+/* ===================== (a) shutdownDrain, whole function, UNBOUNDED: witness session / fd / queued connect, loops closed by loop contracts =====================
+ * Same clauses as the bounded cross-check (SD-A .. SD-E, SD-O, SD-1, SD-2) for ANY number of sessions, listeners, fd tags and queued commands.
+ * ASSUMPTION TABINV: every session in the table is open at entry (closeNow erases what it closes; shutdownDrain clears the table), and the gauge
+ * equals the table size (bumpSess at every insertion, sessionsCurrent-- at every close). Closed entries are covered by shutdownDrain_b3. */
+void h_shutdownDrain_w(void)
+{
+  TcpEngine E; TcpEngine *self = &E;
+  IORA_TRUE = 1;
+  G_seq = nondet_unsigned(); G_cb_calls = 0; G_cbw_calls = 0; G_cbw_in_table = 0; G_wfd_close_calls = 0; G_wfd_del_calls = 0; G_promise_sets = 0;
+  G_wssl_shut_calls = 0; G_wssl_free_calls = 0; G_wssl_shut_before_free = 0; G_wfd_del_before_close = 0; G_wssl_done_before_close = 0;
+  G_fdclose_calls = 0; G_sslshut_calls = 0; G_sslfree_calls = 0; G_ep_dels = 0; G_ep_mods = 0; G_errno = nondet_int();
+  G_sd_cleared = 0; G_proc_calls = 0; G_proc_inserted = 0; IORA_PROC_MAY_INSERT = 1; G_proc_sid = nondet_u64(); G_proc_fd = nondet_int(); __CPROVER_assume(G_proc_fd >= 0);
+  G_WSID = nondet_u64(); G_WFD = nondet_int(); __CPROVER_assume(G_WFD >= 0);
+  /* scratch objects for "some other session / listener" and the witness object (in the table or not) */
+  G_OTHER_SESS = malloc(sizeof(Session)); G_OTHER_LST = malloc(sizeof(Listener)); G_WSESS = malloc(sizeof(Session));
+  __CPROVER_assume(G_OTHER_SESS != NULL && G_OTHER_LST != NULL && G_WSESS != NULL);
+  iora_canon_session(G_WSESS); iora_canon_session(G_OTHER_SESS);
+  E._cbMutex.held = 0; E._sessionRwMutex.held = 0; E._cmdMutex.held = 0; E._cmdsClosed = 0;
+  E._cbs.onClose = nondet_bool(); E._cbs.onData = nondet_bool(); E._cbs.onAccept = nondet_bool(); E._cbs.onConnect = nondet_bool(); E._cbs.onError = nondet_bool();
+  __CPROVER_assume(E._epollFd >= -1 && E._eventFd >= -1 && E._timerFd >= -1 && E._epollFd != G_WFD && E._eventFd != G_WFD && E._timerFd != G_WFD);   /* the engine's own fds are no session's fd */
+  /* tables: any sizes; the witness entries where they exist */
+  E._sessions.has = nondet_bool(); E._sessions.val = G_WSESS;
+  __CPROVER_assume(E._sessions.n < ((size_t)1 << 60) && (!E._sessions.has || (E._sessions.gpos < E._sessions.n && G_WSESS->id == G_WSID && G_WSESS->fd == G_WFD && !G_WSESS->closed)));
+  G_WSSL = E._sessions.has ? G_WSESS->ssl : NULL; G_W0 = *G_WSESS;
+  __CPROVER_assume(E._atomicStats.sessionsCurrent == E._sessions.n);                                    /* TABINV: gauge == table size, all entries open */
+  E._fdTags.has = E._sessions.has; E._fdTags.val = NULL;
+  if (E._fdTags.has) { Tag *t = malloc(sizeof(Tag)); __CPROVER_assume(t != NULL); t->isListener = 0; t->lst = NULL; t->sess = G_WSESS; E._fdTags.val = t; }
+  __CPROVER_assume(E._fdTags.n < ((size_t)1 << 60) && E._fdTags.n >= (E._fdTags.has ? 1u : 0u) && E._listeners.n < ((size_t)1 << 60));
+  E._cmds.has = nondet_bool();
+  __CPROVER_assume(E._cmds.n < ((size_t)1 << 60) && (!E._cmds.has || (E._cmds.gpos < E._cmds.n && E._cmds.val.t == Cmd_Connect && E._cmds.val.c.sid == G_WSID && E._cmds.val.listenerReady == NULL)));
+  __CPROVER_assume(!(E._sessions.has && E._cmds.has));                                                  /* an id is either a session or a connect still to be executed */
+  __CPROVER_assume(!(E._sessions.has || E._cmds.has) || G_proc_sid != G_WSID);                           /* a connect executed by process() carries a fresh id ... */
+  __CPROVER_assume(!E._sessions.has || G_proc_fd != G_WFD);                                              /* ... and gets a fresh descriptor */
+  __CPROVER_assume((G_proc_sid == G_WSID) == (G_proc_fd == G_WFD));                                      /* the fd witness is the descriptor of the id witness */
+  bool w_sess0 = E._sessions.has, w_cmd0 = E._cmds.has, cb = E._cbs.onClose; size_t n0 = E._sessions.n; uint64_t closed0 = E._atomicStats.closed;
+
+  TcpEngine_shutdownDrain(self);
+  IORA_CANARY("h_shutdownDrain_w: returns");
+
+  bool wsid_open = w_sess0 || (G_proc_inserted && G_proc_sid == G_WSID);
+  bool wfd_open = w_sess0 || (G_proc_inserted && G_proc_fd == G_WFD);
+  __CPROVER_assert(G_proc_calls == 1, "SD-O the command queue is drained exactly once");
+  if (wsid_open) { __CPROVER_assert(G_cbw_calls == (cb ? 1u : 0u), "SD-A an open session gets its close notification exactly once"); IORA_CANARY("h_shutdownDrain_w: witness id is an open session"); }
+  if (w_cmd0) { __CPROVER_assert(G_cbw_calls == (cb ? 1u : 0u), "SD-2 a connect still queued when the queue is closed gets its close notification (the application holds that id)"); IORA_CANARY("h_shutdownDrain_w: witness id is a queued connect"); }
+  if (!wsid_open && !w_cmd0) __CPROVER_assert(G_cbw_calls == 0, "SD-A0 no close notification for an id that is neither an open session nor a queued connect");
+  __CPROVER_assert(self->_sessions.n == 0 && !self->_sessions.has, "SD-B the session table is empty");
+  __CPROVER_assert(self->_atomicStats.sessionsCurrent == 0, "SD-C the gauge of open sessions returns to zero");
+  __CPROVER_assert(self->_atomicStats.closed - closed0 == n0 + (G_proc_inserted ? 1u : 0u), "SD-C closed grows by the number of sessions closed");
+  if (wfd_open) { __CPROVER_assert(G_wfd_close_calls == 1 && G_wfd_del_calls == 1 && G_wfd_del_before_close == 1, "SD-D the fd of a closed session is deregistered and closed exactly once, deregistered first");
+                  __CPROVER_assert(SD_WSSL_DONE, "SD-D SSL_shutdown then SSL_free exactly once on the session's SSL object, before close(fd)"); }
+  else __CPROVER_assert(G_wfd_close_calls == 0, "SD-D no other descriptor is closed");
+  __CPROVER_assert(self->_fdTags.n == 0 && !self->_fdTags.has, "SD-1 no fd tag outlives the session or listener it points to (_fdTags empty at exit; the engine can be started again)");
+  __CPROVER_assert(self->_cmdsClosed && self->_cmds.n == 0 && self->_listeners.n == 0 && self->_epollFd == -1 && self->_eventFd == -1 && self->_timerFd == -1, "SD-E queue closed and empty, listeners gone, engine fds closed");
+  __CPROVER_assert(!self->_cbMutex.held && !self->_sessionRwMutex.held && !self->_cmdMutex.held, "SD-E every mutex released");
+  if (G_proc_inserted) { IORA_CANARY("h_shutdownDrain_w: process() executed a queued connect"); }
+}
+#endif
+
 /* ===================== (a') the body of shutdownDrain's session loop as a step: ANY session state (unbounded) ===================== */
 void h_sd_step(void)
 {
@@ -165,6 +228,7 @@ void h_id_alloc(void)
  *        (gone from the table, tag erased, gauge back, exactly one close notification)
  *  DC-C  the connect callback fires at most once, for cr.sid, only on an established plain-TCP connection that stays open, never after a close
  *  DC-S  TLS requested and available: tlsMode Client, tlsState Handshake, SSL object present, no connect callback yet */
+size_t G_dc_tags0;       /* number of fd tags before the block */
 static void dc_world(TcpEngine *self)
 {
   IORA_TRUE = 1;
@@ -173,6 +237,15 @@ static void dc_world(TcpEngine *self)
   self->_cbMutex.held = 0; self->_sessionRwMutex.held = 0; self->_cmdMutex.held = 0;
   self->_cbs.onClose = nondet_bool(); self->_cbs.onConnect = nondet_bool(); self->_cbs.onError = nondet_bool(); self->_cbs.onData = nondet_bool(); self->_cbs.onAccept = nondet_bool();
   self->_config.useEdgeTriggered = nondet_bool(); self->_config.clientTls.enabled = nondet_bool();
+#ifdef SD_WITNESS
+  /* ANY number of other sessions / fd tags are already there (witness containers: the witness id / fd are the NEW session's, not present yet) */
+  G_OTHER_SESS = malloc(sizeof(Session)); G_OTHER_LST = malloc(sizeof(Listener)); G_WSESS = NULL; G_WSSL = NULL;
+  __CPROVER_assume(G_OTHER_SESS != NULL && G_OTHER_LST != NULL); iora_canon_session(G_OTHER_SESS);
+  self->_sessions.has = 0; self->_sessions.val = NULL; self->_fdTags.has = 0; self->_fdTags.val = NULL; self->_listeners.n = 0; self->_cmds.n = 0; self->_cmds.has = 0;
+  __CPROVER_assume(self->_sessions.n < ((size_t)1 << 60) && self->_fdTags.n < ((size_t)1 << 60) && self->_atomicStats.sessionsCurrent < ((size_t)1 << 60));
+}
+#define DC_FRESH_ID(E, sid) ((void)0)          /* witness map: `has == 0` IS "the id is not in the table" (clause ID2) */
+#else
   /* some other sessions are already there (bounded: <= 2), each with its tag */
   size_t ns = nondet_size_t(); __CPROVER_assume(ns <= IORA_NS - 1);
   self->_sessions.n = ns; self->_fdTags.n = 0; self->_listeners.n = 0; self->_cmds.n = 0;
@@ -186,15 +259,17 @@ static void dc_world(TcpEngine *self)
   }
   __CPROVER_assume(self->_atomicStats.sessionsCurrent == ns);
 }
-#define DC_UNTOUCHED(self, ns0, cur0, closed0) ((self)->_sessions.n == (ns0) && (self)->_fdTags.n == (ns0) && (self)->_atomicStats.sessionsCurrent == (cur0) && (self)->_atomicStats.closed == (closed0) \
+#define DC_FRESH_ID(E, sid) do { for (size_t j = 0; j < IORA_NS; j++) if (j < (E)._sessions.n) __CPROVER_assume((E)._sessions.v[j]->id != (sid)); } while (0)          /* a fresh id (clause ID2) */
+#endif
+#define DC_UNTOUCHED(self, ns0, cur0, closed0) ((self)->_sessions.n == (ns0) && (self)->_fdTags.n == G_dc_tags0 && (self)->_atomicStats.sessionsCurrent == (cur0) && (self)->_atomicStats.closed == (closed0) \
   && !(self)->_cbMutex.held && !(self)->_sessionRwMutex.held && G_conncb_calls == 0 && G_closeNow_calls == 0)
 
 void h_doConnect_fail_branches(void)
 {
   TcpEngine E; TcpEngine *self = &E; dc_world(self);
   ConnectReq R; const ConnectReq *cr = &R; G_WSID = R.sid;
-  for (size_t j = 0; j < IORA_NS; j++) if (j < E._sessions.n) __CPROVER_assume(E._sessions.v[j]->id != R.sid);      /* a fresh id (clause ID2) */
-  size_t ns0 = E._sessions.n, cur0 = E._atomicStats.sessionsCurrent; uint64_t closed0 = E._atomicStats.closed; bool cb = E._cbs.onClose;
+  DC_FRESH_ID(E, R.sid);
+  G_dc_tags0 = E._fdTags.n; size_t ns0 = E._sessions.n, cur0 = E._atomicStats.sessionsCurrent; uint64_t closed0 = E._atomicStats.closed; bool cb = E._cbs.onClose;
   unsigned which = nondet_unsigned(); __CPROVER_assume(which <= 3);
   bool cont; int cfd = nondet_int(); bool opened_socket = 0;
   if (which == 0) { bool to = nondet_bool(); cont = TcpEngine_doConnect_dns_timeout(self, cr, to); __CPROVER_assert(cont == !to, "DC-F0 the DNS-timeout branch is taken iff the lookup timed out"); IORA_CANARY("doConnect: dns timeout branch"); }
@@ -226,17 +301,17 @@ void h_doConnect_tail(void)
   ConnectReq R; const ConnectReq *cr = &R; G_WSID = R.sid;
   __CPROVER_assume(R.tls >= TlsMode_None && R.tls <= TlsMode_Client);
   int cfd = nondet_int(); __CPROVER_assume(cfd >= 1000 && cfd < 2000); G_WFD = cfd;            /* a descriptor the kernel just created: no live session uses it */
-  for (size_t j = 0; j < IORA_NS; j++) if (j < E._sessions.n) __CPROVER_assume(E._sessions.v[j]->id != R.sid);      /* a fresh id (clause ID2) */
+  DC_FRESH_ID(E, R.sid);
   /* the Session doConnect has just built (statements before the block: default member initialisers, id = cr.sid, fd = cfd, connectPending = true) */
   Session *s = malloc(sizeof(Session)); __CPROVER_assume(s != NULL); iora_canon_session(s);
   s->id = R.sid; s->fd = cfd; s->tlsMode = TlsMode_None; s->ssl = NULL; s->tlsState = TlsState_None; s->tlsWantWrite = 0; s->wq.n = 0; s->wantWrite = 0; s->closed = 0; s->connectPending = 1;
   s->connectTimeoutId = nondet_u64(); s->handshakeTimeoutId = 0; s->writeStallTimeoutId = 0;
-  size_t ns0 = E._sessions.n, cur0 = E._atomicStats.sessionsCurrent; uint64_t closed0 = E._atomicStats.closed, conn0 = E._atomicStats.connected; bool cb = E._cbs.onClose, ccb = E._cbs.onConnect;
+  G_dc_tags0 = E._fdTags.n; size_t ns0 = E._sessions.n, cur0 = E._atomicStats.sessionsCurrent; uint64_t closed0 = E._atomicStats.closed, conn0 = E._atomicStats.connected; bool cb = E._cbs.onClose, ccb = E._cbs.onConnect;
   bool tls_wanted = R.tls == TlsMode_Client && E._config.clientTls.enabled && E._sslCli != NULL;
   bool r = TcpEngine_doConnect_tail(self, cr, s, cfd);
   IORA_CANARY("h_doConnect_tail: returns");
   Session *in = iora_smapN_lookup(&self->_sessions, R.sid);
-  iora_tmapN_it tg = iora_tmapN_find(&self->_fdTags, cfd);
+  Tag *tgp = iora_tmapN_lookup(&self->_fdTags, cfd); struct { bool found; } tg = { tgp != NULL };
   __CPROVER_assert(!self->_cbMutex.held && !self->_sessionRwMutex.held, "DC-T every mutex released");
   if (!r)
   {
@@ -249,7 +324,7 @@ void h_doConnect_tail(void)
   else if (G_closeNow_calls == 0)
   {
     __CPROVER_assert(in == s && !in->closed && in->id == R.sid && in->fd == cfd, "DC-T the session is in the table under cr.sid, open");
-    __CPROVER_assert(tg.found && self->_fdTags.v[tg.i]->sess == s && !self->_fdTags.v[tg.i]->isListener, "DC-T its fd tag routes the descriptor to this session");
+    __CPROVER_assert(tg.found && tgp->sess == s && !tgp->isListener, "DC-T its fd tag routes the descriptor to this session");
     __CPROVER_assert(self->_sessions.n == ns0 + 1 && self->_atomicStats.sessionsCurrent == cur0 + 1 && self->_atomicStats.closed == closed0, "DC-T gauge + 1, nothing else inserted or removed");
     __CPROVER_assert(G_cb_calls == 0 && G_fdclose_calls == 0, "DC-T no close notification, fd stays open");
     __CPROVER_assert(G_ep_mods == 1 && G_ep_op == EPOLL_CTL_ADD && G_ep_fd == cfd && (G_ep_events & (EPOLLIN | EPOLLOUT)) == (EPOLLIN | EPOLLOUT), "DC-T the fd is registered with epoll for read and write readiness");
@@ -285,16 +360,16 @@ void h_accept_tail(void)
   Listener L; Listener *lst = &L; __CPROVER_assume(L.tls >= TlsMode_None && L.tls <= TlsMode_Client);
   SessionId sid = nondet_u64(); G_WSID = sid;
   int cfd = nondet_int(); __CPROVER_assume(cfd >= 1000 && cfd < 2000); G_WFD = cfd;
-  for (size_t j = 0; j < IORA_NS; j++) if (j < E._sessions.n) __CPROVER_assume(E._sessions.v[j]->id != sid);      /* a fresh id (clause ID2) */
+  DC_FRESH_ID(E, sid);
   Session *s = malloc(sizeof(Session)); __CPROVER_assume(s != NULL); iora_canon_session(s);
   s->id = sid; s->fd = cfd; s->tlsMode = TlsMode_None; s->ssl = NULL; s->tlsState = TlsState_None; s->tlsWantWrite = 0; s->wq.n = 0; s->wantWrite = 0; s->closed = 0; s->connectPending = 0;
   s->connectTimeoutId = 0; s->handshakeTimeoutId = 0; s->writeStallTimeoutId = 0;
-  size_t ns0 = E._sessions.n, cur0 = E._atomicStats.sessionsCurrent; uint64_t acc0 = E._atomicStats.accepted; bool acb = E._cbs.onAccept;
+  G_dc_tags0 = E._fdTags.n; size_t ns0 = E._sessions.n, cur0 = E._atomicStats.sessionsCurrent; uint64_t acc0 = E._atomicStats.accepted; bool acb = E._cbs.onAccept;
   bool tls_wanted = L.tls == TlsMode_Server && E._config.serverTls.enabled && E._sslSrv != NULL;
   TcpEngine_accept_tail(self, lst, s, sid, cfd, 0);
   IORA_CANARY("h_accept_tail: returns");
   Session *in = iora_smapN_lookup(&self->_sessions, sid);
-  iora_tmapN_it tg = iora_tmapN_find(&self->_fdTags, cfd);
+  Tag *tgp = iora_tmapN_lookup(&self->_fdTags, cfd); struct { bool found; } tg = { tgp != NULL };
   __CPROVER_assert(G_recv_calls == 0 && G_sslr_calls == 0 && G_datacb_calls == 0 && G_cb_calls == 0 && G_closeNow_calls == 0, "AC-2 the accept iteration neither reads, nor delivers data, nor closes");
   __CPROVER_assert(!self->_cbMutex.held && !self->_sessionRwMutex.held, "AC every mutex released");
   if (in == NULL)
@@ -308,7 +383,7 @@ void h_accept_tail(void)
   {
     __CPROVER_assert(in == s && in->id == sid && in->fd == cfd && !in->closed, "AC-4 the session is in the table under its id, open");
     __CPROVER_assert(G_acccb_calls == (acb ? 1u : 0u) && G_acccbw_calls == G_acccb_calls && (!acb || G_acccb_in_table), "AC-1 accept callback exactly once (iff registered), with the id the session is stored under, after the insertion");
-    __CPROVER_assert(tg.found && self->_fdTags.v[tg.i]->sess == s && !self->_fdTags.v[tg.i]->isListener, "AC-4 its fd tag routes the descriptor to this session");
+    __CPROVER_assert(tg.found && tgp->sess == s && !tgp->isListener, "AC-4 its fd tag routes the descriptor to this session");
     __CPROVER_assert(self->_sessions.n == ns0 + 1 && self->_atomicStats.sessionsCurrent == cur0 + 1 && self->_atomicStats.accepted == acc0 + 1 && G_fdclose_calls == 0, "AC-4 gauge + 1, accepted + 1, fd stays open");
     __CPROVER_assert(G_ep_mods == 1 && G_ep_op == EPOLL_CTL_ADD && G_ep_fd == cfd && (G_ep_events & EPOLLIN) != 0, "AC-4 the fd is registered with epoll for read readiness");
     __CPROVER_assert(tls_wanted ? (in->tlsMode == TlsMode_Server && in->tlsState == TlsState_Handshake && in->ssl != NULL) : (in->tlsMode == TlsMode_None && in->tlsState == TlsState_None && in->ssl == NULL), "AC-3 TLS listener: handshake state entered with an SSL object; plain listener: TLS fields untouched (TLS_INV)");
@@ -316,7 +391,8 @@ void h_accept_tail(void)
   }
 }
 
-#ifdef IORA_SEARCH
+
+#if defined(IORA_SEARCH) && !defined(SD_WITNESS)
 /* SEARCH: shutdownDrain on a small CONCRETE world (only used to obtain an input for REPLAY).
  *   NS sessions (ids 11.., fds 101..), SSLMASK bit i = session i has an SSL object, NL listeners, NCONN queued Connect commands (ids 21..),
  *   HASCB close callback registered, W = which id is the witness: 0..2 session i, 3 = first queued connect, 4 = an unknown id */
